@@ -13,7 +13,7 @@ from .fl import SFloat
 from .vals import SArr, SList, SFunc, SStr, Unsupported, fresh_name, fresh_int, sel as zsel
 from .state import array_read, coerce_scalar, havoc_cell
 from .lazy import LArr, SData, SDs, _Lit, elem, shape_of, dtype_of, frozen, zi, _num
-from .expr import (is_int, is_boolv, is_bv, is_float, as_bool, zb, to_int, simp_bool, band, bor, bnot, merge, arith, compare,
+from .expr import (is_int, is_boolv, is_bv, is_float, as_bool, zb, to_int, simp_bool, band, bor, bnot, merge, arith, compare, val_eq,
                    BINOPS, CMPOPS)
 
 
@@ -295,6 +295,18 @@ class GatherMixin:
             return self.selection_count(base.w, st)
         if isinstance(base, Gath):
             return SFunc(name="gather." + n.attr, handler=("method", base))
+        if isinstance(base, tuple) and base and isinstance(base[0], str) and base[0] == "rasterfile" and n.attr in ("count", "width", "height"):
+            # band count / size of a raster file: an ASSUMED pure function of the path
+            p_ = base[1]
+            if isinstance(p_, (str, SStr)):
+                from .vals import intern_str
+                tok = p_.tok if isinstance(p_, SStr) else z3.IntVal(intern_str(p_))
+                uf = z3.Function("raster_" + n.attr, z3.IntSort(), z3.IntSort())
+                r = uf(tok)
+                if not any(ax.eq(r >= 0) for ax in self.axioms[-8:]):
+                    self.axioms.append(r >= 0)
+                return r
+            raise Unsupported("raster attribute of a non-string path (line %d)" % n.lineno)
         return super().e_Attribute(ast.Attribute(value=_Lit(base), attr=n.attr, ctx=n.ctx, lineno=n.lineno, col_offset=0), st)
 
     def b_xarray_align(self, args, kw, st, n):
@@ -433,7 +445,15 @@ class GatherMixin:
             from .state import fresh_of_type
             a = fresh_of_type(st, "raster_read", "i16[:,:]", None)
             self.local_cells.add(a.cell)
+            # the file's content does not depend on the program state: the array is frozen (readable from every state)
+            a = SArr(a.cell, a.dt, a.shape, (), a.name, snap=st.heap[a.cell])
             cache[key] = a
+            for s_ in a.shape:
+                self.axioms.append(zi(s_) >= 0)
+            if kw.get("window") is None and isinstance(recv[1], (str, SStr)):
+                # a whole band: (height, width) of the file
+                self.axioms.append(zi(a.shape[0]) == zi(self.e_Attribute(ast.Attribute(value=_Lit(recv), attr="height", ctx=ast.Load(), lineno=n.lineno, col_offset=0), st)))
+                self.axioms.append(zi(a.shape[1]) == zi(self.e_Attribute(ast.Attribute(value=_Lit(recv), attr="width", ctx=ast.Load(), lineno=n.lineno, col_offset=0), st)))
         return cache[key]
 
     def provable(self, cond, st, ms=2000):
@@ -647,6 +667,80 @@ class GatherMixin:
         if is_float(v):
             return fl.isfin(fl.F(v))
         return True
+
+    def _quant_bool(self, a, st, n, exists):
+        if not (is_arr(a) and arr_dt(a) == "b"):
+            raise Unsupported(".any()/.all() of a non-boolean array (line %d)" % n.lineno)
+        src = frozen(a, st)
+        shp = shape_of(a)
+        q = [z3.Int(fresh_name("qa")) for _ in shp]
+        inb = z3.And(*[z3.And(x >= 0, x < zi(s_)) for x, s_ in zip(q, shp)])
+        body = zb(as_bool(elem(src, q, st)))
+        return z3.Exists(q, z3.And(inb, body)) if exists else z3.ForAll(q, z3.Implies(inb, body))
+
+    def m_issubset(self, recv, args, kw, st, n):
+        """{"a", "b"}.issubset(array of labels): every constant occurs somewhere in the array"""
+        if not isinstance(recv, (set, frozenset)) or len(args) != 1:
+            raise Unsupported("issubset form (line %d)" % n.lineno)
+        a = args[0].arr if isinstance(args[0], SData) else args[0]
+        if isinstance(a, (set, frozenset)):
+            return recv.issubset(a)
+        if not is_arr(a) or len(shape_of(a)) != 1:
+            raise Unsupported("issubset of %r (line %d)" % (type(a), n.lineno))
+        parts = []
+        for c in sorted(recv, key=str):
+            i = z3.Int(fresh_name("ss"))
+            e = elem(a, [i], st)
+            same = val_eq(e, c) if isinstance(e, SStr) or isinstance(c, str) else compare("==", _num(e), c, True)
+            if isinstance(e, SStr) != isinstance(c, str):
+                same = False
+            parts.append(z3.Exists([i], z3.And(i >= 0, i < zi(shape_of(a)[0]), zb(as_bool(same)))))
+        return z3.And(*parts) if parts else True
+
+    def m_sel(self, recv, args, kw, st, n):
+        """dataarray.sel(<dim>=<label>): the slice at THE position of the label along that dimension.  That the label occurs is
+        an obligation (xarray raises KeyError otherwise); with a label occurring once the position is determined"""
+        if not isinstance(recv, SData) or args or len(kw) != 1:
+            raise Unsupported(".sel form (line %d)" % n.lineno)
+        (dim, label), = kw.items()
+        dims = recv.dims.items if isinstance(recv.dims, SList) else recv.dims
+        if dims is None or dim not in dims:
+            raise Unsupported(".sel on a DataArray without that declared dimension (line %d)" % n.lineno)
+        own = getattr(recv, "coords", None) or {}
+        lab = own.get(dim) or (recv.owner.coords.get(dim) if recv.owner is not None else None)
+        if lab is None:
+            raise Unsupported(".sel without a coordinate for %s (line %d)" % (dim, n.lineno))
+        lab = lab.arr if isinstance(lab, SData) else lab
+        k = list(dims).index(dim)
+        nl = zi(shape_of(lab)[0])
+        i = z3.Int(fresh_name("sl"))
+
+        def is_label(ix):
+            e = elem(lab, [ix], st)
+            if isinstance(e, SStr) != isinstance(label, (str, SStr)):
+                return z3.BoolVal(False)
+            return zb(as_bool(val_eq(e, label) if isinstance(e, SStr) else compare("==", _num(e), label, True)))
+        if not self.spec:
+            self.emit(st, "pre@call", "sel.%s.L%d" % (dim, n.lineno), z3.Exists([i], z3.And(i >= 0, i < nl, is_label(i))), n,
+                      "the label selected along %s occurs in its coordinate (xarray raises KeyError otherwise)" % dim)
+        pos = z3.Int(fresh_name("selpos"))
+        st.assume(z3.And(pos >= 0, pos < nl, is_label(pos)))
+        st.assume(z3.ForAll([i], z3.Implies(z3.And(i >= 0, i < pos), z3.Not(is_label(i)))))
+        src = frozen(recv.arr, st)
+        shp = [s_ for j, s_ in enumerate(shape_of(recv.arr)) if j != k]
+        out = LArr(arr_dt(recv.arr), shp, (lambda ix, st2, src=src, k=k, pos=pos: elem(src, list(ix[:k]) + [pos] + list(ix[k:]), st2)),
+                   None, name="sel")
+        return SData(out, dims=[d_ for d_ in dims if d_ != dim], name=recv.name, owner=recv.owner)
+
+    def m_any(self, recv, args, kw, st, n):
+        if args or kw:
+            raise Unsupported(".any(axis) (line %d)" % n.lineno)
+        return self._quant_bool(recv, st, n, True)
+
+    def m_all(self, recv, args, kw, st, n):
+        if args or kw:
+            raise Unsupported(".all(axis) (line %d)" % n.lineno)
+        return self._quant_bool(recv, st, n, False)
 
     def b_numpy_logical_or(self, args, kw, st, n):
         return self.elementwise("|", args[0], args[1], st)
